@@ -66,6 +66,7 @@ type Out struct {
 		Ms            float64 `json:"ms"`
 	} `json:"stats"`
 	Harness string `json:"harness,omitempty"` // harness-level inconsistency: never a verdict
+	Skipped bool   `json:"skipped,omitempty"` // not run: too many non-terminating scenarios before this one
 }
 
 func levelOf(s string) upgrade.Level {
@@ -271,10 +272,18 @@ func copyFile(src, dstDir string) (string, error) {
 	return dst, os.WriteFile(dst, b, 0o644)
 }
 
+// maxHangs: once this many scenarios have been confirmed as non-terminating the remaining ones are not run
+// (each costs two watchdog periods and a leaked goroutine); they are reported as skipped, never as verdicts.
+const maxHangs = 12
+
 func runCase(e *Env, idx int, c *Case, limit time.Duration) (*Out, error) {
 	t0 := time.Now()
 	s := &c.Scenario
 	out := &Out{I: idx, ID: c.ID, Trace: []Event{}, Findings: []Finding{}}
+	if hangsSeen.Load() >= maxHangs {
+		out.Skipped = true
+		return out, nil
+	}
 	ctx := context.Background()
 	dir := filepath.Join(e.Tmp, "rf", strconv.Itoa(idx))
 	defer os.RemoveAll(dir)
